@@ -53,7 +53,9 @@ Proof.
   unfold issue_code in Hiss. injection Hiss as _ <-.
   cbn [t_at_sub t_sub t_azp t_aud t_jwt t_scope t_nonce].
   repeat split; auto.
-  - unfold aud_with. cbn. rewrite String.eqb_refl. cbn. auto.
+  - unfold aud_with. destruct (string_in (q_client q) (grant_aud cf (q_client q))) eqn:E.
+    + now apply string_in_In.
+    + apply in_app_iff. right. now left.
   - intros x. destruct (c_jwt c); [|discriminate]. intros [= <-].
     apply find_client_id in Hfc as [Hid _]. exact Hid.
 Qed.
@@ -195,7 +197,7 @@ End T.
 
 (* ---- non-vacuity: a concrete history in which every hypothesis above is met ---- *)
 Definition ex_cfg : cfg :=
-  {| f_post := true; f_pkjwt := true; f_refresh := true; f_reqobj := true; f_keep := false;
+  {| f_post := true; f_pkjwt := true; f_refresh := true; f_reqobj := true; f_keep := false; f_aud := None;
      clients := [ {| c_id := "web"; c_secret := "s3cret"; c_auth := AM_Basic; c_redirects := ["https://web/cb"];
                      c_code := true; c_refresh := true; c_jwt := false |};
                   {| c_id := "spa"; c_secret := ""; c_auth := AM_None; c_redirects := ["https://spa/cb"];
